@@ -162,7 +162,7 @@ INTERP_INFO = {
 }
 
 
-def info_spec(d, e, idx):
+def info_spec(d, e, idx, explicit_classes=False):
     info = {
         "styleName": "M%d" % idx,
         "ascender": 800 + d, "descender": -200 + e, "xHeight": 500 + d, "capHeight": 700 + 2 * d,
@@ -175,10 +175,13 @@ def info_spec(d, e, idx):
         "guidelines": [{"x": 10, "y": 20, "angle": 30, "name": "g"}],
     }
     info.update(copy.deepcopy(COPIED_INFO))
+    if explicit_classes:
+        info["openTypeOS2WeightClass"] = 300 + 2 * d
+        info["openTypeOS2WidthClass"] = 3
     return info
 
 
-def master_spec(d, e, role, idx, kern, shift=0):
+def master_spec(d, e, role, idx, kern, shift=0, explicit_classes=False):
     glyphs = glyph_specs(d, e, role, shift)
     return {
         "glyphs": glyphs,
@@ -187,7 +190,7 @@ def master_spec(d, e, role, idx, kern, shift=0):
         "groups": copy.deepcopy(GROUPS),
         "features": "# family features\n",
         "lib": {"my.font.key": {"list": [1, 2.5, "x"], "dict": {"k": [True]}}},
-        "info": info_spec(d, e, idx),
+        "info": info_spec(d, e, idx, explicit_classes),
     }
 
 
@@ -195,6 +198,10 @@ def axis_specs(setup):
     axes = []
     for name, default in TOPOLOGIES[setup["topo"]][0]:
         ad = AXIS_DEF[name]
+        if setup.get("tags") == "slnt" and name == W:
+            # the same axis registered as 'slnt': masters that SET italicAngle keep / blend it, the
+            # axis value is only the fallback for masters that do not
+            ad = dict(ad, tag="slnt")
         if setup["map"]:
             u = ad["user"]
             axes.append({"name": name, "tag": ad["tag"], "min": u[0], "default": u[default],
@@ -211,7 +218,8 @@ def build_family(setup, shift=0):
     module = setup.get("module", "ufoLib2")
     kern = setup.get("kern", "base")
     sources = []
-    default_spec = [master_spec(d, e, role, idx, kern, shift)
+    xc = bool(setup.get("tags"))
+    default_spec = [master_spec(d, e, role, idx, kern, shift, xc)
                     for idx, (loc, (d, e), role) in enumerate(masters) if "default" in role][0]
     for idx, (loc, (d, e), role) in enumerate(masters):
         if role == "sparse":
@@ -225,7 +233,7 @@ def build_family(setup, shift=0):
         elif "default" in role:
             sources.append({"spec": default_spec, "share": "default", "location": loc, "name": "m%d" % idx})
         else:
-            sources.append({"spec": master_spec(d, e, role, idx, kern, shift), "location": loc,
+            sources.append({"spec": master_spec(d, e, role, idx, kern, shift, xc), "location": loc,
                             "name": "m%d" % idx})
     rules = [dict(r) for r in RULESETS[setup["rules"]]]
     ds = B.build_designspace(axis_specs(setup), sources, rules=rules,
@@ -305,7 +313,8 @@ class Reference:
             f = s.font
             self.kerning.append({tuple(k): v for k, v in f.kerning.items()})
             self.info.append({a: copy.deepcopy(getattr(f.info, a, None))
-                              for a in list(INTERP_INFO) + list(COPIED_INFO)})
+                              for a in list(INTERP_INFO) + list(COPIED_INFO)
+                              + ["openTypeOS2WeightClass", "openTypeOS2WidthClass"]})
         dfont = ds.sources[self.default_idx].font
         self.groups = {k: list(v) for k, v in dfont.groups.items()}
         self.rules = RULESETS[setup["rules"]]
@@ -498,6 +507,8 @@ def owned_snapshot(ds, extra_fonts):
 def replay_history(setup, ops, want_ref=True):
     """Fresh objects, real calls.  Returns dict with the last instance, reference, frames."""
     from ufo2ft.instantiator import Instantiator
+    if setup.get("prelude") == "reversed" and want_ref:
+        run_prelude(setup, ops)
     ds = build_family(setup)
     ref = Reference(setup, ds)
     extra = []
@@ -527,6 +538,18 @@ def replay_history(setup, ops, want_ref=True):
             scribble_font(font)
     return {"ds": ds, "ref": ref, "inst": inst, "font": font, "loc": last_loc, "before": before,
             "extra": extra, "before_repl": before_repl, "replaced": replaced, "n_req": n_req}
+
+
+def run_prelude(setup, ops):
+    """Another, independent family (other deviations, same master locations, sources listed in
+    reverse) is instantiated first at the requested locations and at one more."""
+    from ufo2ft.instantiator import Instantiator
+    ds = build_family(dict(setup, prelude=None), shift=8)
+    ds.sources.reverse()
+    inst = Instantiator.from_designspace(ds, round_geometry=bool(setup["round"]))
+    order = [a for a, _ in TOPOLOGIES[setup["topo"]][0]]
+    for op in [o for o in ops if o[0] == "g"] + [["g"] + [250] * len(order)]:
+        inst.generate_instance(make_request(design_location(op, order)))
 
 
 _FRESH = {}
@@ -618,6 +641,17 @@ class C19(Property):
                 continue
             out.append([{"mode": "inst", "topo": topo, "map": 0, "round": rnd, "rules": "none",
                          "scribble": 0, "kern": hole}])
+        # the first axis registered as 'slnt' (italicAngle set by every master, 0 in the default) or
+        # kept as 'wght' with explicit OS/2 classes in every master: explicit values are blended,
+        # the axis value is only a fallback
+        for topo, mp, rnd, tags in itertools.product(("2m", "3mc", "3mi"), (0, 1), (0, 1), ("slnt", "wght")):
+            out.append([{"mode": "inst", "topo": topo, "map": mp, "round": rnd, "rules": "none",
+                         "scribble": 0, "tags": tags}])
+        # another family with the same master locations listed in another order was instantiated
+        # in this process before (nothing may be shared between instantiators)
+        for topo, rnd in itertools.product(("2m", "3mc", "3mi", "4c", "2s"), (0, 1)):
+            out.append([{"mode": "inst", "topo": topo, "map": 0, "round": rnd, "rules": "none",
+                         "scribble": 0, "prelude": "reversed"}])
         if b["defcon_sources"]:
             for topo, rnd, rules in itertools.product(TOPO_NAMES, (0, 1), ("none", "chain")):
                 out.append([{"mode": "inst", "topo": topo, "map": 1, "round": rnd, "rules": rules,
@@ -630,7 +664,7 @@ class C19(Property):
         two = len(TOPOLOGIES[setup["topo"]][0]) == 2
         main = (setup["rules"] in ("none", "chain") and not setup["map"]
                 and setup.get("kern", "base") == "base" and setup.get("module", "ufoLib2") == "ufoLib2")
-        if setup.get("kern", "base") != "base":
+        if setup.get("kern", "base") != "base" or setup.get("tags") or setup.get("prelude"):
             return 1
         if two:
             if main and setup["rules"] == "chain" and setup["scribble"]:
@@ -844,7 +878,12 @@ def run_instance_history(setup, ops):
         ctr["info:" + imethod] += 1
         substates += 1
         nontrivial += 1 if (imethod != "master" or rounding) else 0
-        for attr, kind_ in INTERP_INFO.items():
+        interp = dict(INTERP_INFO)
+        if setup.get("tags"):
+            # explicitly set classes win over the values inferred from wght / wdth / slnt axes
+            interp.update({"openTypeOS2WeightClass": "integer", "openTypeOS2WidthClass": "integer"})
+            ctr["info:explicit-vs-axis-fallback"] += 1
+        for attr, kind_ in interp.items():
             if at:
                 exact = at[0][attr]
             else:
